@@ -69,7 +69,7 @@ struct Names {
 };
 
 struct Ctx {
-  std::vector<Rec> *plan = nullptr; long pad_len = -1; int rcode = 0; bool aa = false; bool had_opt = false;
+  std::vector<Rec> *plan = nullptr; long pad_len = -1; int pad_section = EVDNS_ADDITIONAL_SECTION; int rcode = 0; bool aa = false; bool had_opt = false;
   std::vector<Question> sent_q; Expect *ex = nullptr; int calls = 0; int respond_ret = -99;
 };
 
@@ -104,9 +104,9 @@ void server_cb(struct evdns_server_request *req, void *arg) {
     e.sec[r.section].push_back(xrec_of(r));
   }
   if (c->pad_len >= 0) {
-    int ret = evdns_server_request_add_reply(req, EVDNS_ADDITIONAL_SECTION, ".", 16, 1, 7, (int)c->pad_len, 0, (const char *)g_pat);
+    int ret = evdns_server_request_add_reply(req, c->pad_section, ".", 16, 1, 7, (int)c->pad_len, 0, c->pad_len ? (const char *)g_pat : nullptr);
     CHECK(ret == 0, "C35/add-failed", "padding record of %ld bytes refused: %d", c->pad_len, ret);
-    XRec x; x.type = 16; x.klass = 1; x.ttl = 7; x.data = g_pat; x.datalen = (size_t)c->pad_len; e.sec[2].push_back(x);
+    XRec x; x.type = 16; x.klass = 1; x.ttl = 7; x.data = g_pat; x.datalen = (size_t)c->pad_len; e.sec[c->pad_section].push_back(x);
   }
   if (c->aa) evdns_server_request_set_flags(req, EVDNS_FLAGS_AA);
   c->respond_ret = evdns_server_request_respond(req, c->rcode);
@@ -313,6 +313,9 @@ extern "C" int LLVMFuzzerTestOneInput(const uint8_t *data, size_t size) {
       long L = T - S2 - 11;
       if (L >= 0 && L <= 65535) {
         c.pad_len = L; target = T;
+        // the padding record closes the additional section, or (so that names follow it) the authority section; the latter shifts what
+        // follows, which the by-construction exclusions above do not account for
+        c.pad_section = (!k_ptr && !k_term && s.flag()) ? EVDNS_AUTHORITY_SECTION : EVDNS_ADDITIONAL_SECTION;
         o2 = exchange(w, s, c, q2, T, "exchange 2 (padding record)"); aimed = true;
         if (o2.got && o2.ri.tc) truncated = true;
       }
